@@ -130,7 +130,7 @@ func editResync(r *Run) {
 	if r.SweepCase >= 0 {
 		c = c16Cache[r.Tier][r.SweepCase]
 	} else {
-		ss := []int{4, 8, 12, 16, 20, 64, 100, 256}
+		ss := []int{4, 8, 12, 16, 20, 36, 60, 64, 100, 256, 500, 1000}
 		c.S = ss[t.Draw(len(ss), "S")]
 		k := 1 + t.Draw(7, "slices")
 		c.N1 = k * c.S
